@@ -168,6 +168,8 @@ class ExprMixin:
             if is_pystr(x):
                 s = x.t.as_string()
                 return T.card_is_str(c.t, s) if s in T.Card.strs else z3.BoolVal(False)
+            if x.ty == T.Str:
+                return z3.And(z3.Not(T.card_is_int(c.t)), self.to_str(st, c).t == x.t)
             raise VCError("Card compared with %s" % x.ty)
         if isinstance(a.ty, T.Atom) or isinstance(b.ty, T.Atom):
             at, x = (a, b) if isinstance(a.ty, T.Atom) else (b, a)
@@ -183,7 +185,7 @@ class ExprMixin:
                 conj.append(self.hread(st, a.ty.family, f, a.t) == self.hread(st, a.ty.family, f, b.t))
             return z3.And(conj)
         if a.ty == b.ty:
-            if isinstance(a.ty, (T.List, T.Dict)): raise VCError("== on containers unsupported; use spec helpers")
+            if isinstance(a.ty, (T.List, T.Dict)) and not self.spec: raise VCError("== on containers unsupported; use spec helpers")
             return a.t == b.t
         num = (T.Int, T.Real)
         if a.ty in num and b.ty in num:
